@@ -569,7 +569,8 @@ def _regress_one(args):
         if sub is None:
             return ("harness", path, f"no sub-check {rec['sub']}")
         out = safe_run(sub, rec["case"])
-        return ("ok", path, [(f"{sub.name}/{s}", m) for s, m in out.fails])
+        tag = ("@" + rec["tag"]) if rec.get("tag") else ""      # input-specific signature for recorded findings
+        return ("ok", path, [(f"{sub.name}/{s}{tag}", m) for s, m in out.fails])
     except Exception as exc:
         return ("harness", path, f"{type(exc).__name__}: {exc}")
 
